@@ -18,7 +18,8 @@ import (
 var wanted = map[string]bool{
 	"interfaces": true, "generics": true, "methods_embedding": true, "bound_methods_thunks": true,
 	"generic_same_local_name": true, "generic_composite_typearg_two_pkgs": true, "same_names_two_pkgs": true,
-	"cross_package_dynamic_type_identity": true, "sealed_interface_promoted_method": true,
+	"cross_package_dynamic_type_identity": true, "sealed_interface_promoted_method": true, "many_itabs": true,
+	"method_values_same_named_types": true,
 }
 
 func TestC07Programs(t *testing.T) {
